@@ -153,6 +153,9 @@ SECRETS = [b"", b"a", b"password", b"\xe9\xff", b"\xff\xfe\x80", "é€😀".enc
            ("e" * 69 + "\U0001F600" + "tail").encode(), ("f" * 100 + "\xe9" * 10).encode(), ("g" * 15 + "\xe9" + "h" * 112).encode()]
 
 
+NUL_SECRETS = [b"stub\0stub", b"password\0", b"x" * 20 + b"\0tail", b"\0"]
+
+
 def key_sweep(fam, rnd, quick):
     """(secret, config) pairs for a family; configs vary salt size/alphabet ends, rounds, idents."""
     h64 = "./0123456789ABCDEFGHIJKLMNOPQRSTUVWXYZabcdefghijklmnopqrstuvwxyz"
@@ -190,6 +193,10 @@ def key_sweep(fam, rnd, quick):
     if fam in ("bcrypt", "ldap_bcrypt", "django_bcrypt", "bcrypt_sha256", "django_bcrypt_sha256") and quick:
         secrets = SECRETS[:10] + [SECRETS[13], SECRETS[18], SECRETS[19], SECRETS[24]] + straddle[:2] + straddle[3:5]
     keys = [(f"{fam}|{CONFIGS[fam]}|first-use", b"pw".hex(), CONFIGS[fam])]
+    # passwords with a NUL byte, inside and beyond the part a truncating format looks at: every backend gives the same answer
+    # (the same refusal, or the same digest)
+    for s in NUL_SECRETS:
+        keys.append((f"{fam}|{cfgs[0]}|{s.hex()[:40]}|{len(s)}", s.hex(), cfgs[0]))
     for ci, cfg in enumerate(cfgs):
         for si, s in enumerate(secrets):
             if quick and (ci + si) % 2 and ci > 0:
@@ -233,7 +240,7 @@ def independent(fam, keys):
             prm = dict(x.split("=") for x in parts[2].split(","))
             salt = base64.b64decode(parts[3] + "=" * (-len(parts[3]) % 4))
             n, r, p = 1 << int(prm["ln"]), int(prm["r"]), int(prm["p"])
-            dk = hashlib.scrypt(secret, salt=salt, n=n, r=r, p=p, dklen=32)
+            dk = hashlib.scrypt(secret, salt=salt, n=n, r=r, p=p, dklen=32, maxmem=2 ** 30)
             out.append((kid, "hashlib.scrypt", cfg + base64.b64encode(dk).decode().rstrip("=")))
     return out
 
@@ -322,10 +329,17 @@ def run(chk):
     sweeps = []
     for f in fams:
         keys = key_sweep(f, rnd, quick)
+        heavy = []
+        if f == "scrypt":
+            # legal costs around the memory sizes at which the C providers start to ask for an explicit limit (16, 32, 64 MiB): only for
+            # the compiled backends (the pure-Python one would take minutes), against hashlib.scrypt with a generous limit
+            heavy = [(f"{f}|{c}|7077|2", b"pw".hex(), c) for c in ("$scrypt$ln=14,r=8,p=1$c2FsdA$", "$scrypt$ln=15,r=8,p=1$c2FsdA$", "$scrypt$ln=16,r=4,p=1$c2FsdA$",
+                                                                  "$scrypt$ln=14,r=16,p=2$c2FsdA$", "$scrypt$ln=13,r=32,p=1$c2FsdA$", "$scrypt$ln=16,r=8,p=1$c2FsdA$",
+                                                                  "$scrypt$ln=15,r=8,p=3$c2FsdA$")]
         for b in orders[f]:
             if b in avail[f]:
-                sweeps.append((f, b, keys))
-        for kid, prov, dig in independent(f, keys):
+                sweeps.append((f, b, keys + (heavy if b != "builtin" else [])))
+        for kid, prov, dig in independent(f, keys + heavy):
             evs.append({"key": kid, "provider": prov, "digest": dig, "family": f})
     with ctx.Pool(16, maxtasksperchild=1) as pool:
         outs = pool.map(hash_sweep, sweeps, chunksize=1)
@@ -338,6 +352,8 @@ def run(chk):
             chk.action("digest")
             if status == "ok":
                 evs.append({"key": kid, "provider": f"passlib:{b}", "digest": val, "family": f})
+            elif any(("|" + x.hex()[:40] + "|") in kid for x in NUL_SECRETS) and status in ("NullPasswordError", "PasswordValueError", "ValueError"):
+                evs.append({"key": kid, "provider": f"passlib:{b}", "digest": "(refused: NUL in the password)", "family": f})
             else:
                 secret_len = int(kid.rsplit("|", 1)[1])
                 chk.violation(f"{f}:{b}:hash-error:{status}", f"{f} with backend {b} failed to hash a {secret_len}-byte password: {status} {val}",
